@@ -36,6 +36,7 @@ type model struct {
 	Expect  []string            `json:"expect"`  // failure signatures the engine predicts (informational)
 	ObsWant []string            `json:"obs"`     // observation stream the engine predicts (informational)
 	Gate    []string            `json:"gate"`    // order in which gated goroutines must proceed (schedule replay)
+	ByteRanks map[string]uint64 `json:"byte_ranks"` // order of opaque byte strings (public keys) chosen by the solver
 }
 
 var (
@@ -348,3 +349,37 @@ func CidKey(c cid.Cid) string {
 // GateSeq(key): like Gate, but the recorded order is the order of passage through the gate itself
 // (used at call-backs that run inside a critical section of the code under test).
 func GateSeq(key string) { Gate(key) }
+
+// OrderOK reports whether the byte strings vals, known to the model under the names keys, are in the relative
+// order the solver chose for them (always true under the engine, where that order is symbolic). Natively the
+// harness re-draws random keys until the order matches, so that tie-breaks on key bytes replay faithfully.
+func OrderOK(keys []string, vals [][]byte) bool {
+	mu.Lock()
+	defer mu.Unlock()
+	if mdl == nil || len(mdl.ByteRanks) == 0 {
+		return true
+	}
+	for i := range keys {
+		ri, oki := mdl.ByteRanks[keys[i]]
+		if !oki {
+			continue
+		}
+		for j := i + 1; j < len(keys); j++ {
+			rj, okj := mdl.ByteRanks[keys[j]]
+			if !okj {
+				continue
+			}
+			c := 0
+			switch {
+			case string(vals[i]) < string(vals[j]):
+				c = -1
+			case string(vals[i]) > string(vals[j]):
+				c = 1
+			}
+			if (ri < rj) != (c < 0) {
+				return false
+			}
+		}
+	}
+	return true
+}
